@@ -158,6 +158,9 @@ type Evidence struct {
 
 func writeEvidence(e *Evidence) {
 	dir := filepath.Join(verifDir, "evidence")
+	if d := os.Getenv("VERIF_EVIDENCE_DIR"); d != "" {
+		dir = d // measurement builds (tools/reach.sh) must not overwrite the checks' evidence
+	}
 	_ = os.MkdirAll(dir, 0755)
 	b, _ := json.MarshalIndent(e, "", " ")
 	if err := os.WriteFile(filepath.Join(dir, e.PropertyID+".json"), append(b, '\n'), 0644); err != nil {
